@@ -18,6 +18,16 @@ REPO = os.environ.get('VERIF_REPO', '/repo')
 SRC = os.path.join(REPO, 'src', 'pyhf')
 COQ = os.path.join(VERIF, 'coq')
 WORK = os.path.join(VERIF, '.work')
+_SUF = os.environ.get('VERIF_WORK_SUFFIX', '')
+if _SUF:
+    # scratch run against a modified tree (seed tests): private copy of the Coq development, so that the files
+    # regenerated from the modified source (coq/gen) and their .vo never mix with the ones built from /repo
+    COQ = os.path.join(WORK, 'coq' + _SUF)
+    os.makedirs(WORK, exist_ok=True)
+    with open(os.path.join(VERIF, '.lock'), 'w') as _lf:      # not while a make of the main copy is writing .vo files
+        fcntl.flock(_lf, fcntl.LOCK_EX)
+        subprocess.run(['rsync', '-a', '--delete', os.path.join(VERIF, 'coq') + '/', COQ + '/'], check=True)
+        fcntl.flock(_lf, fcntl.LOCK_UN)
 REPLAYS = os.path.join(VERIF, 'replays')
 EVID = os.path.join(VERIF, 'evidence')
 NCPU = os.cpu_count() or 4
@@ -129,7 +139,7 @@ def load_known():
 # Coq build
 class Lock:
     def __init__(self, name='.lock'):
-        self.path = os.path.join(VERIF, name)
+        self.path = os.path.join(VERIF, name + _SUF)
 
     def __enter__(self):
         self.f = open(self.path, 'w')
